@@ -24,7 +24,7 @@ CHECKS = {
         "technique": "static analysis: select!-DSL lexing + resolved-call mapping, decision table of kill(), who-may-call on the control channel, CFG reachability",
     },
     "C07": {
-        "text": "No strong handle is stored in the lifecycle coroutine across the select! suspension point (compiler's coroutine layout + ownership walk over saved-local types + must-move dataflow for the locals the pre-elaboration layout over-approximates), for every feature set; the spawn function leaks no strong value; ActorWeak owns nothing strong, only ActorWeak/ActorRef are coerced into the weak/strong trait objects, no other impls, no static owns a handle; every loop-exit edge lies in the control-signal, stop/None or on_run-Err arm, the other arms only return to the select!; closed channels lead to on_stop(false)/Completed{killed:false} (C04/C05 rules re-evaluated); upgrade() decided by its decision table.",
+        "text": "No strong handle is stored in the lifecycle coroutine across the select! suspension point (compiler's coroutine layout + ownership walk over saved-local types + must-move dataflow for the locals the pre-elaboration layout over-approximates), for every feature set; the spawn function leaks no strong value; ActorWeak owns nothing strong, only ActorWeak/ActorRef are coerced into the weak/strong trait objects, no other impls, no static owns a handle; every loop-exit edge lies in the control-signal, stop/None or on_run-Err arm, the other arms only return to the select!; closed channels lead to on_stop(false)/Completed{killed:false} (C04/C05 rules re-evaluated); stop() really enqueues its in-band marker and the marker ends message handling; under `biased;` both receiver branches are polled before any user-code branch and the mailbox branch is unconditional (no starvation of an accepted stop by an always-ready on_run); upgrade() decided by its decision table.",
         "note": ASSUME % "T2, T4, T8, T9",
         "technique": "static analysis: coroutine-layout liveness + ownership type walk + must-move dataflow, loop-exit dominance, impl/unsize-coercion inventory",
     },
@@ -39,7 +39,7 @@ CHECKS = {
         "technique": "static analysis: provenance of envelope constructions and channel operations (who-may-call), dominance on send functions and on the lifecycle loop, coroutine-layout ownership",
     },
     "C02": {
-        "text": "Order preservation reduces (tokio FIFO axiom) to: one queue, direct enqueue in caller program order, inline handling. Decided: exactly one bounded mailbox channel whose halves go to ActorRef::new / the lifecycle, every ActorRef construction inherits that sender, no unbounded/second channel, mailbox Sender used only via send/blocking_send each consuming a message built in the same body, no spawned task/thread sends except the blocking timeout helpers whose caller waits for the helper result on every path, one recv site, handler awaited inline before the next select!, stop marker in-band.",
+        "text": "Order preservation reduces (tokio FIFO axiom) to: one queue, direct enqueue in caller program order, inline handling. Decided: exactly one bounded mailbox channel whose halves go to ActorRef::new / the lifecycle, every ActorRef construction inherits that sender, no unbounded/second channel, mailbox Sender used only via send/blocking_send each consuming a message built in the same body, no spawned task/thread sends except the blocking timeout helpers whose caller waits for the helper result on every path, one recv site, handler awaited inline before the next select!, the blanket handler future runs the user's handler exactly once on every path (a dequeued message is never skipped), stop marker in-band and ending message handling.",
         "note": ASSUME % "T1, T4, T9",
         "technique": "static analysis: who-may-call on channel constructors/methods and task spawns, provenance of channel halves, dominance",
     },
@@ -54,7 +54,7 @@ CHECKS = {
         "technique": "static analysis: argument provenance, guard dominance, decision table of the validator, who-may-call",
     },
     "C10": {
-        "text": "All 4 tokio::time::timeout sites: duration is exactly the API's Duration parameter (through closure/coroutine captures), future is exactly the whole base operation tell/ask(self|self.clone(), msg), awaited in place; Error::Timeout only in Elapsed closures passed to map_err on that await, with the same Duration; after `?` the inner Result is returned unchanged (other failures reported as themselves); is_retryable decided over all variants. Not decided: returning *at* the deadline (timer accuracy / scheduling) - runtime quantity.",
+        "text": "All 4 tokio::time::timeout sites (timeout_at is accepted when its deadline is Instant::now() advanced by the parameter with a total checked_add; a panicking `Instant + Duration` is reported): duration is exactly the API's Duration parameter (through closure/coroutine captures), future is exactly the whole base operation tell/ask(self|self.clone(), msg), awaited in place; Error::Timeout only in Elapsed closures passed to map_err on that await, with the same Duration; after `?` the inner Result is returned unchanged (other failures reported as themselves); is_retryable decided over all variants. Not decided: returning *at* the deadline (timer accuracy / scheduling) - runtime quantity.",
         "note": ASSUME % "T1, T5, T7, T8",
         "technique": "static analysis: argument provenance across captures, `?`/map_err value flow, decision table",
     },
@@ -64,7 +64,7 @@ CHECKS = {
         "technique": "static analysis: control-equivalence (dominators/post-dominators) pairing of error constructions and record calls, failure-condition classification, who-may-call on the counter",
     },
     "C11": {
-        "text": "Uniqueness: one Identity::new call, fed by fetch_add(non-zero constant) on a static atomic referenced by no other body, feeding the one ActorRef::new (atomic RMW axiom gives uniqueness under any concurrency). Stability: every ActorRef/ActorWeak construction copies id from the parameter/self.id, identity() returns self.id, erased handles forward. Truthfulness: complete decision tables of ActorRef::is_alive, ActorWeak::is_alive and ActorWeak::upgrade over the tokio handle predicates; receivers die with the lifecycle on every exit. Not decided: the instant of the flip under concurrency (tokio handle semantics).",
+        "text": "Uniqueness: one Identity::new call, fed by fetch_add(non-zero constant) on a static atomic referenced by no other body, feeding the one ActorRef::new (atomic RMW axiom gives uniqueness under any concurrency). Stability: every ActorRef/ActorWeak construction copies id from the parameter/self.id, identity() returns self.id, erased handles forward. Truthfulness: complete decision tables of ActorRef::is_alive, ActorWeak::is_alive and ActorWeak::upgrade over the tokio handle predicates; receivers die with the lifecycle on every exit; the runtime keeps no strong handle of its own while it waits for work and spawn leaks none (C07 rules), so upgrade succeeds exactly while a user-visible strong reference or queued message exists. Not decided: the instant of the flip under concurrency (tokio handle semantics).",
         "note": ASSUME % "T2, T7, T8, T9",
         "technique": "static analysis: who-may-call on the id counter static, field provenance of handle constructions, decision tables",
     },
@@ -99,13 +99,13 @@ CHECKS = {
         "technique": "static analysis: cross-configuration comparison of event graphs extracted from MIR (sibling/cfg-variant cross-check)",
     },
     "C20": {
-        "text": "With `metrics`: one MessageProcessingGuard::new site, dominated by the Envelope arm, dominating the handler call, once per iteration, and stored in the coroutine across the handler's suspension point (compiler layout) - so exactly the handled user messages are measured, stop markers and leftovers never; Drop records once with start.elapsed(); inventory of all writers of the collector's atomics (count: fetch_add(1) only; max: fetch_max only; total: saturating fetch_update only; all on every path with the same duration); snapshot fields are computed by the same expression trees as the accessors; ActorRef accessors forward; handles hold Arc<MetricsCollector> and every construction copies it; one collector per spawn. Not decided: avg<=max / max>=longest as arithmetic (paper argument from the decided structure).",
+        "text": "With `metrics`: one MessageProcessingGuard::new site, dominated by the Envelope arm, dominating the handler call, once per iteration, and stored in the coroutine across the handler's suspension point (compiler layout) - so exactly the handled user messages are measured, stop markers and leftovers never; Drop records once with start.elapsed(); inventory of all writers of the collector's atomics (count: fetch_add(1) only; max: fetch_max only; total: saturating fetch_update only; all on every path with the same duration); snapshot fields are computed by the same expression trees and under the same branch conditions as the accessors (or by calling them); ActorRef accessors forward; handles hold Arc<MetricsCollector> and every construction copies it; one collector per spawn. Not decided: avg<=max / max>=longest as arithmetic (paper argument from the decided structure).",
         "note": ASSUME % "T7, T8, T9" + " Evaluated under feature sets containing metrics.",
         "technique": "static analysis: dominance + coroutine-layout typestate for the RAII guard, who-may-write inventory of atomics, expression-tree sibling comparison",
     },
     "C19": {
         "level": "translation_validation",
-        "text": "The proc macros are validated as a translator on a generated corpus (quick: seeded sample covering every return-type spelling x attribute option, ~65 programs; thorough: the full product of the grammar, ~800 programs) compiled against the real macros under the extractor and checked statically against an independent oracle table: Reply == declared return type (compiler type equality), handle() is a verbatim awaited forwarder, on_tell_result overridden iff the documented table says so and logging only under Err, user's method kept, derive(Actor) yields Args=Self/Error=Infallible/on_start=Ok(args) for every actor shape; 9 negative programs must be rejected with the macro's own diagnostic (a compiling twin guards against vacuous failure). Runtime half decided in /repo: on_tell_result is called exactly once per tell, never for ask, with a reference to the handler's value.",
+        "text": "The proc macros are validated as a translator on a generated corpus (quick: seeded sample covering every return-type spelling x attribute option, ~65 programs; thorough: the full product of the grammar, ~800 programs) compiled against the real macros under the extractor and checked statically against an independent oracle table: Reply == declared return type (compiler type equality), handle() is a verbatim awaited forwarder, on_tell_result overridden iff the documented table says so and logging only under Err, user's method kept, derive(Actor) yields Args=Self/Error=Infallible/on_start=Ok(args) for every actor shape; 9 negative programs must be rejected with the macro's own diagnostic (a compiling twin guards against vacuous failure). Thorough additionally validates every macro use in the repository's own tests and examples (>=100 generated impls, all features) against an oracle table read from the source text. Runtime half decided in /repo: on_tell_result is called exactly once per tell, never for ask, with a reference to the handler's value.",
         "note": "Programs are type-checked, never executed. Trusts rustc's type equality and that the pinned nightly expands the macros as stable does (T8). Programs outside the generated grammar are not covered.",
         "technique": "static analysis: translation validation of macro expansions (generated corpus type-checked and inspected through the MIR extractor) + compile-fail witnesses",
     },
